@@ -208,6 +208,16 @@ package bluemonday
 //@     lemma[C10] stylesOKif(p, elementName, cleanAttrs)
 //@   before "if hrefFound {"
 //@     lemma[C10] stylesOKif(p, elementName, cleanAttrs)
+//@   before#1 "cleanAttrs = append(cleanAttrs, rel)"
+//@     lemma[C11] !hasKey(cleanAttrs, "rel")
+//@   before#2 "cleanAttrs = append(cleanAttrs, rel)"
+//@     lemma[C11] !hasKey(cleanAttrs, "target")
+//@   before#3 "cleanAttrs = append(cleanAttrs, rel)"
+//@     lemma[C11] !hasKey(cleanAttrs, "rel")
+//@   before "cleanAttrs = append(cleanAttrs, crossOrigin)"
+//@     lemma[C12] !hasKey(cleanAttrs, "crossorigin")
+//@   before "cleanAttrs = append(cleanAttrs, sandbox)"
+//@     lemma[C12] !hasKey(cleanAttrs, "sandbox")
 //@   before "if targetBlankFound {"
 //@     lemma[C10] stylesOKif(p, elementName, cleanAttrs)
 //@     lemma[C11] hasKey(cleanAttrs, "href") && (extHref(cleanAttrs) <==> externalLink)
@@ -260,6 +270,7 @@ package bluemonday
 //@     invariant[C11] len(tmpAttrs) == rangeindex + 1 && rangeindex < len(cleanAttrs)
 //@     invariant[C11] forall i int :: 0 <= i && i <= rangeindex ==> tmpAttrs[i].Key == cleanAttrs[i].Key && (cleanAttrs[i].Key != "rel" && cleanAttrs[i].Key != "target" ==> tmpAttrs[i].Val == cleanAttrs[i].Val)
 //@     invariant[C11] forall i int :: 0 <= i && i <= rangeindex && cleanAttrs[i].Key == "rel" && (addNoFollow ==> hasTok(cleanAttrs[i].Val, "nofollow")) && (addNoReferrer ==> hasTok(cleanAttrs[i].Val, "noreferrer")) ==> tmpAttrs[i].Val == cleanAttrs[i].Val
+//@     invariant[C11] elementName == "a" && addTargetBlank && !targetBlankFound ==> (forall i int :: 0 <= i && i <= rangeindex ==> cleanAttrs[i].Key != "target")
 //@     invariant[C11] addNoFollow ==> relsHave(tmpAttrs, "nofollow")
 //@     invariant[C11] addNoReferrer ==> relsHave(tmpAttrs, "noreferrer")
 //@     invariant[C11] noFollowFound <==> (addNoFollow && (exists i int :: 0 <= i && i <= rangeindex && cleanAttrs[i].Key == "rel"))
@@ -269,6 +280,7 @@ package bluemonday
 //@     invariant[C11] !targetBlankFound ==> (forall i int :: 0 <= i && i <= rangeindex && cleanAttrs[i].Key == "target" ==> tmpAttrs[i].Val == cleanAttrs[i].Val)
 //@     invariant[C11] !noFollowFound && !noReferrerFound ==> (forall i int :: 0 <= i && i <= rangeindex && cleanAttrs[i].Key == "rel" ==> tmpAttrs[i].Val == cleanAttrs[i].Val)
 //@     after[C11] !targetBlankFound ==> !(elementName == "a" && hasBlankTarget(cleanAttrs))
+//@     after[C11] elementName == "a" && addTargetBlank && !targetBlankFound ==> !hasKey(cleanAttrs, "target")
 //@     after[C11] sameKeys(tmpAttrs, cleanAttrs) && sameValsExcept(tmpAttrs, cleanAttrs, "rel", "target")
 //@     after[C11] (hasKey(tmpAttrs, "href") <==> hasKey(cleanAttrs, "href")) && (extHref(tmpAttrs) <==> extHref(cleanAttrs)) && (hasKey(tmpAttrs, "rel") <==> hasKey(cleanAttrs, "rel")) && (hasKey(tmpAttrs, "target") <==> hasKey(cleanAttrs, "target"))
 //@     after[C11] (noFollowFound <==> (addNoFollow && hasKey(cleanAttrs, "rel"))) && (noReferrerFound <==> (addNoReferrer && hasKey(cleanAttrs, "rel")))
